@@ -233,4 +233,31 @@ def Obs.ltimeOf (o : Obs) (x : Name) : Option Nat := (o.members.find? (·.1 == x
 def Obs.statusOf (o : Obs) (x : Name) : Option Status := (o.members.find? (·.1 == x)).map (·.2.1)
 def Obs.knows (o : Obs) (x : Name) : Bool := (o.members.find? (·.1 == x)).isSome
 
+/-- the Lamport time of the leave claim about the local node carried by a harness op, if any -/
+def selfClaim (prev : Obs) : HOp → Option Nat
+  | .ops [.leaveMsg x lt _ _] => if x == selfName then some lt else none
+  | .ops [.forceLeave x _ _] => if x == selfName then some prev.clock else none
+  | .ops [.merge _ status left _] =>
+    if left.contains selfName then some ((((alookup status selfName).getD 0) + 1) % two64) else none
+  | _ => none
+
+/-- ops by which the local node begins leaving (Leave, Shutdown, memberlist reporting it dead) -/
+def beginsLeaving : HOp → Bool
+  | .leave _ => true
+  | .ops [.shutdown] => true
+  | .ops [.nodeLeave x _] => x == selfName
+  | _ => false
+
+/-- The refutation rule judged on the implementation's observations: a claim about the running local
+node (not begun leaving) with a time newer than its own status time and below 2^64-1 must be answered
+by a queued join of the local node with a STRICTLY greater time.  Returns the message of a failure. -/
+def refutationFailure (begun : Bool) (prev cur : Obs) (h : HOp) : Option String :=
+  match selfClaim prev h with
+  | some lt =>
+    if !begun && lt < two64 - 1 && (match prev.ltimeOf selfName with | some t => decide (t < lt) | none => false)
+       && !(cur.queue.any fun m => match m with | .join x t => x == selfName && decide (lt < t) | _ => false) then
+      some s!"claim about the running local node at time {lt} was not refuted by a join with a greater time (queued: {cur.queue.map Msg.str})"
+    else none
+  | none => none
+
 end SerfModel.Check.NodeCommon
